@@ -405,7 +405,7 @@ def main(argv=None) -> int:
         nxt = 0
         try:
             while True:
-                while nxt < runs and len(pending) < jobs * 2 and not truncated:
+                while nxt < runs and len(pending) < jobs + 2 and not truncated:
                     c = min(batch, runs - nxt)
                     pending.add(ex.submit(_batch, prop, tier, vseed, nxt, c))
                     nxt += c
